@@ -1,1 +1,12 @@
-fn main(){}
+//! rvchild <role> [args…] — subprocess roles of the harness.
+#[global_allocator]
+static ALLOC: rv::bw::TrackAlloc = rv::bw::TrackAlloc;
+
+fn main() {
+    let args: Vec<String> = std::env::args().collect();
+    match args.get(1).map(|s| s.as_str()) {
+        // C27: executes decoders on corrupt input (allocation cap, CPU budget, panics reported)
+        Some("bytes-worker") => rv::c27::child_main(&args[2..]),
+        _ => {}
+    }
+}
